@@ -6,6 +6,7 @@ import (
 	"go/build/constraint"
 	"io/fs"
 	"os"
+	"strconv"
 	"strings"
 
 	"golang.org/x/exp/maps"
@@ -55,8 +56,12 @@ func loadImports(sys fs.FS, topPkg string, top *token) (pkgList, error) {
 			}
 			for i := 1; i < len(t.Tokens); i += 2 {
 				pk := t.Tokens[i]
-				todo = append(todo, pk.Unquote())
-				deps[pkg][pk.Unquote()] = true
+				path, err := strconv.Unquote(pk.Text)
+				if err != nil {
+					return nil, fmt.Errorf("invalid import path: %v", pk.Text)
+				}
+				todo = append(todo, path)
+				deps[pkg][path] = true
 			}
 		}
 	}
